@@ -12,7 +12,7 @@ GLOBAL_ALLOW = {
 PROCESS_EFFECT_ALLOW = {
     ('rbql_csv', 'CSVWriter.finish', 'sys.stdout.close'): 'reachable only after a broken pipe on stdout (documented work-around for bpo-11380)',
 }
-IMMUTABLE_CALLS = {'namedtuple', 're.compile', 'frozenset', 'tuple', 'str', 'int', 'float', 'bool', 'os.path.join', 'os.path.expanduser', 'collections.namedtuple'}
+IMMUTABLE_CALLS = {'namedtuple', 're.compile', 'frozenset', 'tuple', 'str', 'int', 'float', 'bool', 'bytes', 'object', 'len', 'min', 'max', 'ord', 'chr', 'os.path.join', 'os.path.expanduser', 'os.path.dirname', 'os.path.abspath', 'os.path.basename', 'os.path.realpath', 'collections.namedtuple'}   # object(): a bare sentinel has no state
 
 
 def _is_mutable_value(v):
